@@ -263,7 +263,7 @@ func TestC15_PasswordPersist(t *testing.T) {
 			return
 		}
 	}
-	ev.Rapid("pwpersist", ev.Pick(6, 15))
+	ev.Rapid("pwpersist", ev.Pick(6, 10))
 	rapid.Check(t, func(rt *rapid.T) {
 		var pw string
 		switch rapid.IntRange(0, 3).Draw(rt, "pwclass") {
